@@ -29,7 +29,7 @@ var plans = map[string]*plan{
 		Assume: []string{"a download is 'reported successful' when the object is delivered on Watch(); 'failed' otherwise", "rename failures and other disk errors are outside the statement and not injected"},
 		Extra: &plan{
 			ID: "C02", Engine: "B", Level: "exploration",
-			Stages: []stage{{"C02.custom", 100, 3000}, {"C02.file", 80, 2500}, {"C02.two", 60, 2000}},
+			Stages: []stage{{"C02.custom", 100, 3000}, {"C02.file", 80, 2500}, {"C02.ssh", 100, 3000}, {"C02.two", 60, 2000}},
 			Rule:   "the custom transfer adapter end to end: `git lfs fetch` of 1-4 objects through a scripted agent process (the orchestrator binary in agent mode), selected by the server's batch answer or as lfs.standalonetransferagent, concurrent or not; per object the agent answers one of ok / same-size bit flip / truncated / extra bytes / path to a missing file / error / completion for another oid / non-JSON / dies; optional stale garbage at the final location; a second fetch with a well-behaved agent. After each fetch: nothing but hash-valid content may appear at a final location, stale files survive failures, exit 0 implies everything needed is validly stored.",
 			Real:   realB, Stub: []string{"the transfer agent: scripted stub process speaking the line-JSON protocol", "LFS server: simulated (batch API only; the agent moves the bytes)"},
 			Assume: []string{"the ssh adapter is not covered (stated, not silently skipped)", "C02.file: downloads (fetch / pull / checkout smudge / fetch --all) from a file:// remote through git-lfs's built-in standalone agent; the remote's stored copy of each object is ok / same-size bit flip / truncated / extended / missing / another object / empty, optionally on another file system (copy instead of hard link), optional stale garbage at the final location; a second round after the remote is repaired", "C02.two: two real git-lfs processes in one repository; their interleaving is fixed at the network: the server holds the first download part of the way until the second process has finished"},
